@@ -44,6 +44,7 @@
 //! # }
 //! ```
 #![deny(missing_docs)]
+#![cfg_attr(feature = "verif", allow(missing_docs))]
 #![cfg_attr(docsrs, feature(doc_cfg))]
 
 #[cfg(not(any(target_pointer_width = "32", target_pointer_width = "64")))]
@@ -57,6 +58,9 @@ mod sentence;
 pub mod token;
 pub mod tokenizer;
 mod utils;
+
+#[cfg(feature = "verif")]
+pub mod verif_hooks;
 
 #[cfg(feature = "train")]
 #[cfg_attr(docsrs, doc(cfg(feature = "train")))]
